@@ -17,6 +17,7 @@ import (
 	"sort"
 	"strconv"
 	"strings"
+	"time"
 
 	goagrpc "goa.design/goa/v3/grpc"
 	goapb "goa.design/goa/v3/grpc/pb"
@@ -223,6 +224,16 @@ type upstream struct{ code int }
 func (u upstream) Error() string   { return fmt.Sprintf("upstream answered %d", u.code) }
 func (u upstream) StatusCode() int { return u.code }
 
+// multi is a cause that is itself a multi-error (like the value of errors.Join): it must stay reachable as a
+// whole through a merged error
+type multi struct {
+	msg  string
+	errs []error
+}
+
+func (m *multi) Error() string   { return m.msg }
+func (m *multi) Unwrap() []error { return m.errs }
+
 type wrapper struct {
 	msg   string
 	inner error
@@ -243,7 +254,10 @@ func parseSE(toks []string, causes map[int]error) (*goa.ServiceError, []string) 
 	var se *goa.ServiceError
 	if toks[4] != "~" {
 		cid, _ := strconv.Atoi(toks[4])
-		c := errors.New("cause-" + toks[4])
+		var c error = errors.New("cause-" + toks[4])
+		if (cid+len(name))%2 == 1 {
+			c = &multi{msg: "cause-" + toks[4], errs: []error{errors.New("first of " + toks[4]), errors.New("second of " + toks[4])}}
+		}
 		causes[cid] = c
 		se = goa.NewServiceError(c, name, flags&1 != 0, flags&2 != 0, flags&4 != 0)
 		se.Message = msg
@@ -382,6 +396,32 @@ func run(toks []string) string {
 		f, _ := strconv.Atoi(toks[2])
 		se := &goa.ServiceError{Name: lp.MustDec(toks[1]), ID: "id", Message: "m", Timeout: f&1 != 0, Temporary: f&2 != 0, Fault: f&4 != 0}
 		st, _ := status.FromError(goagrpc.EncodeError(se))
+		// the same error returned by an endpoint behind the gRPC handlers, with a live context and with one that is
+		// already done (a server-side deadline): the handler hands the endpoint's error on, whatever the context says
+		for vi, mk := range []func() (context.Context, context.CancelFunc){
+			func() (context.Context, context.CancelFunc) { return context.WithCancel(context.Background()) },
+			func() (context.Context, context.CancelFunc) {
+				c, cancel := context.WithCancel(context.Background())
+				cancel()
+				return c, cancel
+			},
+			func() (context.Context, context.CancelFunc) {
+				return context.WithDeadline(context.Background(), time.Now().Add(-time.Second))
+			},
+		} {
+			ctx, cancel := mk()
+			ep := func(context.Context, any) (any, error) { return nil, se }
+			_, herr := goagrpc.NewUnaryHandler(ep, nil, nil).Handle(ctx, nil)
+			serr := goagrpc.NewStreamHandler(ep, nil).Handle(ctx, nil)
+			cancel()
+			for hi, e := range []error{herr, serr} {
+				st2, _ := status.FromError(goagrpc.EncodeError(e))
+				var back *goa.ServiceError
+				if !errors.As(e, &back) || back.Name != se.Name || st2.Code() != st.Code() {
+					return fmt.Sprintf("%d handler-differs:ctx%d.h%d:code=%d", int(st.Code()), vi, hi, int(st2.Code()))
+				}
+			}
+		}
 		return strconv.Itoa(int(st.Code()))
 	case "grpcrt":
 		f, _ := strconv.Atoi(toks[4])
